@@ -328,6 +328,12 @@ def cases(quick):
     out.append({"name": "upgrade-declined-parked", "stream": up(0) + req(1) + up(2) + req(3, "post"), "behaviours": ["park", "ret", "park", "read"], "faults": F})
     out.append({"name": "upgrade-declined-parked-big", "stream": up(0) + req(1, "big") + req(2), "behaviours": ["park", "read", "ret"],
                 "faults": F, "server_kw": {"read_bufsize": 64}})
+    # an upgrade request that carries a body, declined: by a handler that ignores the body or reads it
+    upb = lambda i: b"POST /%d HTTP/1.1\r\nHost: a\r\nUpgrade: websocket\r\nConnection: upgrade\r\nContent-Length: 6\r\n\r\nabcdef" % i
+    upc = lambda i: b"POST /%d HTTP/1.1\r\nHost: a\r\nUpgrade: websocket\r\nConnection: upgrade\r\nTransfer-Encoding: chunked\r\n\r\n2\r\nab\r\n4\r\ncdef\r\n0\r\n\r\n" % i
+    for nm, mk in (("cl", upb), ("chunked", upc)):
+        for beh in ("ret", "read", "park"):
+            out.append({"name": f"upgrade-body-{nm}-declined-{beh}", "stream": mk(0) + req(1) + req(2, "post"), "behaviours": [beh, "ret", "read"], "faults": F})
     out.append({"name": "post-unread-then-2", "stream": req(0, "post") + req(1) + req(2), "behaviours": ["ret"], "faults": F})
     out.append({"name": "park-first-of-3", "stream": pipe(3), "behaviours": ["park", "ret", "read"], "faults": F})
     # around the queue limit
